@@ -30,6 +30,8 @@ RULE = ('families. modattr-*: a Host with random nested vars (depth<=3, empty co
         'the Gallina lexer+parser; repeat-empty-original: every kind of empty-valued original (null, "", 0, false, [], missing key / nested key / '
         'intermediate, empty notes, unset vars) modified 2-4 times, interleaved, restored; repeat-dict-perkey: the per-key copies of the '
         'remember test with empty-valued entries. '
+        'restore-prefix-sibling: two modified paths, one a plain string prefix of the other but not a token prefix (vars.os / vars.os_family, '
+        'vars.a / vars.ab.c), restore the shorter, then the longer (frame of RestoreAttribute: executable check in the glue). '
         'non-trivial = at least one modify, dump or traced write; distinct = distinct script text')
 TRUSTED = ['model: coq/Persist/PsModel.v (transcription of ConfigObject::ModifyAttribute/RestoreAttribute/DumpModifiedAttributes, '
            'serializer.cpp Serialize/Deserialize, AtomicFile system-call pattern)',
@@ -561,6 +563,34 @@ def mk_repeat_perkey(rnd):
     return {'lines': lines, 'tags': {'family': 'repeat-dict-perkey'}}
 
 
+
+PREFIX_PAIRS = [('vars.os', 'vars.os_family'), ('vars.a', 'vars.ab.c'), ('vars.disks', 'vars.disks_spare.count'), ('vars.a', 'vars.a_'), ('vars.n', 'vars.nn.x.y')]
+
+
+def mk_prefix_sibling(rnd, pair=None, order=0):
+    """restore-prefix-sibling: two modified paths of which one is a plain STRING prefix of the other without being a TOKEN prefix
+    (vars.os / vars.os_family, vars.a / vars.ab.c ...): modify both (either order), restore the SHORTER one - the longer one must
+    keep its value and its original_attributes entry (frame of RestoreAttribute) - then the longer one; sometimes a reload between."""
+    a, b = pair or rnd.choice(PREFIX_PAIRS)
+    lines = ['now %d' % T0, 'ps_mnew vars=M(%s:D1,%s:D7,%s:M(%s:D2),%s:D3,%s:M(%s:D1),%s:S%s,%s:S%s)' % (
+        hx('a'), hx('a_'), hx('ab'), hx('c'), hx('disks'), hx('disks_spare'), hx('count'), hx('os'), hx('linux'), hx('os_family'), hx('unix'))]
+    t = T0
+    first = [a, b] if (order or rnd.randint(1, 2)) == 1 else [b, a]
+    for p in first:
+        t += 1
+        lines += ['now %d' % t, 'ps_mod path=%s val=%s' % (hx(p), rnd.choice(['D9', 'S' + hx('changed'), 'T', 'A(D1)']))]
+    if pair is None and rnd.random() < 0.25:
+        t += 1
+        lines += ['now %d' % t, rnd.choice(['ps_dma', 'ps_restart'])]
+    t += 1
+    lines += ['now %d' % t, 'ps_res path=%s' % hx(a)]
+    if pair is None and rnd.random() < 0.3:
+        lines.append('ps_dma')
+    t += 1
+    lines += ['now %d' % t, 'ps_res path=%s' % hx(b), 'ps_dma']
+    return {'lines': lines, 'tags': {'family': 'restore-prefix-sibling'}}
+
+
 def mk_text_special():
     out = []
     S = lambda fam, *ls: out.append({'lines': ['now %d' % T0] + list(ls), 'tags': {'family': fam}})
@@ -721,6 +751,9 @@ def generate(seed, tier):
     for i in range(80 * k): cases.append(mk_state_case(rnd, True))
     for i in range(120 * k): cases.append(mk_population(rnd))
     cases += mk_text_special()
+    for pr in PREFIX_PAIRS:
+        for od in (1, 2): cases.append(mk_prefix_sibling(rnd, pr, od))
+    for i in range(40 * k): cases.append(mk_prefix_sibling(rnd))
     for i in range(160 * k): cases.append(mk_text(rnd))
     for i in range(150 * k): cases.append(mk_repeat(rnd))
     for i in range(40 * k): cases.append(mk_repeat_perkey(rnd))
@@ -854,6 +887,8 @@ def _classify(case, detail, impl_lines):
         if slots and diff == slots and all(any(has_type_key(parse(v)) for v in _supplied(case, s)) for s in slots):
             return 'state-type-key'
         return 'state-roundtrip'
+    if detail.startswith('restore-touches-sibling'):
+        return 'restore-touches-sibling'
     if detail.startswith('restore-unmodified'):
         return 'restore-unmodified-wipes'
     if detail.startswith('restore-mismatch'):
